@@ -14,9 +14,10 @@ Variable set : T -> N -> fatv -> res T.
 Variable val : T -> N -> fatv.
 Variable okc : N -> Prop.
 Variable okv : fatv -> Prop.
-Hypothesis get_val : forall t c, okc c -> get t c = Ok (val t c).
-Hypothesis set_ok : forall t c v, okc c -> okv v ->
-  exists t', set t c v = Ok t' /\ val t' c = v /\ forall c', c' <> c -> val t' c' = val t c'.
+Variable inv : T -> Prop.     (* store invariant kept by [set] (byte-level stores: slice geometry, bytes < 256) *)
+Hypothesis get_val : forall t c, inv t -> okc c -> get t c = Ok (val t c).
+Hypothesis set_ok : forall t c v, inv t -> okc c -> okv v ->
+  exists t', set t c v = Ok t' /\ inv t' /\ val t' c = v /\ forall c', c' <> c -> okc c' -> val t' c' = val t c'.
 Hypothesis okv_free : okv Free.
 Hypothesis okv_eoc : okv Eoc.
 
@@ -26,45 +27,48 @@ Let chain := chain T val.
 
 (* the statistics call reports exactly the number of free table entries, cached or recomputed *)
 Theorem C05_stats_exact : forall t fi total,
-  fi_inv t fi total -> (forall x, 2 <= x < total + 2 -> okc x) ->
+  inv t -> fi_inv t fi total -> (forall x, 2 <= x < total + 2 -> okc x) ->
   exists fi', fs_stats T get t fi total = Ok (fi', count_spec t 2 (N.to_nat total)) /\ fi_inv t fi' total.
-Proof. exact (fs_stats_exact T get val okc get_val). Qed.
+Proof. exact (fs_stats_exact T get val okc inv get_val). Qed.
 
 (* allocation: keeps the cached count exact (never underflows), leaves an in-range hint, hands out only a
    free data cluster, and reports out-of-space only when no data cluster is free *)
 Theorem C05_alloc_accounting : forall t fi prev total,
-  fi_inv t fi total ->
+  inv t -> fi_inv t fi total ->
   (forall x, 2 <= x < total + 2 -> okc x) ->
   (match prev with
    | Some p => okc p /\ (forall n, 2 <= n < total + 2 -> okv (Data n)) /\ val t p <> Free
    | None => True end) ->
   match fs_alloc T get set t fi prev total with
-  | Ok (t', fi', c) => fi_inv t' fi' total /\ 2 <= c < total + 2 /\ val t c = Free /\
+  | Ok (t', fi', c) => inv t' /\ fi_inv t' fi' total /\ 2 <= c < total + 2 /\ val t c = Free /\
                        (exists h, fi_next fi' = Some h /\ 2 <= h < total + 2)
   | Err e => e = ENotEnoughSpace /\ forall x, 2 <= x < total + 2 -> val t x <> Free
   | Panic => False
   | OutOfFuel => False
   end.
-Proof. exact (fs_alloc_inv T get set val okc okv get_val set_ok okv_eoc). Qed.
+Proof. exact (fs_alloc_inv T get set val okc okv inv get_val set_ok okv_eoc). Qed.
 
 (* removing a file gives back every cluster of its chain: each becomes free, nothing else changes, the count
    of free entries and the cached count grow by exactly the chain length *)
 Theorem C05_remove_reclaims_all : forall t fi total c l fuel,
+  inv t -> (forall x, 2 <= x < total + 2 -> okc x) ->
   fi_inv t fi total -> chain t c l -> NoDup l ->
   (forall x, In x l -> okc x /\ 2 <= x < total + 2 /\ val t x <> Free) -> (length l < fuel)%nat ->
-  exists t' fi', fs_free_chain T get set t fi c fuel = Ok (t', fi') /\ fi_inv t' fi' total /\
+  exists t' fi', fs_free_chain T get set t fi c fuel = Ok (t', fi') /\ inv t' /\ fi_inv t' fi' total /\
     count_spec t' 2 (N.to_nat total) = count_spec t 2 (N.to_nat total) + N.of_nat (length l) /\
-    (forall x, In x l -> val t' x = Free) /\ (forall x, ~ In x l -> val t' x = val t x).
-Proof. exact (fs_free_chain_inv T get set val okc okv get_val set_ok okv_free). Qed.
+    (forall x, In x l -> val t' x = Free) /\ (forall x, ~ In x l -> okc x -> val t' x = val t x).
+Proof. exact (fs_free_chain_inv T get set val okc okv inv get_val set_ok okv_free). Qed.
 
 (* truncating: the cluster at the cut becomes the end of the chain, everything after it is given back *)
 Theorem C05_truncate_reclaims : forall t fi total c l fuel,
+  inv t -> (forall x, 2 <= x < total + 2 -> okc x) ->
   fi_inv t fi total -> chain t c (c :: l) -> NoDup (c :: l) ->
   (forall x, In x (c :: l) -> okc x /\ 2 <= x < total + 2 /\ val t x <> Free) -> (length l < fuel)%nat ->
-  exists t' fi', fs_truncate_chain T get set t fi c fuel = Ok (t', fi') /\ fi_inv t' fi' total /\
-    val t' c = Eoc /\ (forall x, In x l -> val t' x = Free) /\ (forall x, ~ In x (c :: l) -> val t' x = val t x) /\
+  exists t' fi', fs_truncate_chain T get set t fi c fuel = Ok (t', fi') /\ inv t' /\ fi_inv t' fi' total /\
+    val t' c = Eoc /\ (forall x, In x l -> val t' x = Free) /\
+    (forall x, ~ In x (c :: l) -> okc x -> val t' x = val t x) /\
     count_spec t' 2 (N.to_nat total) = count_spec t 2 (N.to_nat total) + N.of_nat (length l).
-Proof. exact (fs_truncate_chain_inv T get set val okc okv get_val set_ok okv_free okv_eoc). Qed.
+Proof. exact (fs_truncate_chain_inv T get set val okc okv inv get_val set_ok okv_free okv_eoc). Qed.
 End C05.
 
 (* non-vacuity on the pure store: a 6-cluster table with a 3-cluster chain 2 -> 4 -> 3 *)
